@@ -65,7 +65,7 @@ func TestC03(t *testing.T) {
 		mc := NewMachine("C03", sch, column.Options{Writer: log})
 		defer mc.Close()
 		defer mc.Guard(t)
-		cfg := TxnCfg{Prop: "C03", MaxSteps: 10, Rollback: true, Deletes: true, Inserts: true, Merges: true, OwnUpdates: true, KeyOps: true, Direct: true,
+		cfg := TxnCfg{Prop: "C03", MaxSteps: 10, Peeks: true, Rollback: true, Deletes: true, Inserts: true, Merges: true, OwnUpdates: true, KeyOps: true, Direct: true,
 			NoStoreOnDel: KFActive("f11-store-and-delete-same-txn"), NoOpAfterLenMerge: KFActive("f15-difflen-merge-reorder")}
 		t.Repeat(map[string]func(*rapid.T){
 			"txn": func(t *rapid.T) {
